@@ -60,10 +60,11 @@ def run(ctx):
         lst = {}
         lid = [0]
 
-        def mk(kind):
+        def mk(kind, types_=None):
             lid[0] += 1
             me = lid[0]
-            types_ = rng.sample(pool, rng.randrange(0, 4)) if rng.random() < 0.85 else [P.Packet]
+            if types_ is None:
+                types_ = rng.sample(pool, rng.randrange(0, 4)) if rng.random() < 0.85 else [P.Packet]
             ign = rng.random() < 0.25
 
             def cb_(pkt, me=me, ign=ign, kind=kind):
@@ -102,8 +103,22 @@ def run(ctx):
                         for _ in range(n_each[k])]
                 rng.shuffle(regs)
                 for k, early, outgoing in regs:
-                    f, types_ = mk('eo'[0] if False else ('e' if early else 'o') + ('O' if outgoing else 'I'))
-                    conn.register_packet_listener(f, *types_, early=early, outgoing=outgoing)
+                    kind_ = ('e' if early else 'o') + ('O' if outgoing else 'I')
+                    f, types_ = mk(kind_)
+                    how = rng.random()
+                    if how < 0.6:
+                        conn.register_packet_listener(f, *types_, early=early, outgoing=outgoing)
+                    else:
+                        # the documented decorator form; one decorator object may be applied to several handlers
+                        dec = conn.listener(*types_, early=early, outgoing=outgoing)
+                        if dec(f) is not f:
+                            ctx.violation('the listener() decorator does not return the handler it was applied to', {},
+                                          key={'kind': 'decorator-return'})
+                        ctx.count('registered.by-decorator')
+                        if how > 0.8:
+                            f2, _ = mk(kind_, types_)
+                            dec(f2)
+                            ctx.count('registered.decorator-reused')
                 conn.connect()
                 net.run_threads()
                 srv = cfg['servers'][0]
@@ -304,6 +319,46 @@ def run(ctx):
         if worst > 1:
             ctx.violation('a queued packet whose write failed was offered to an outgoing listener %d times (write error, then the '
                           'flush of the server-initiated disconnect)' % worst, {'variant': variant}, key={'kind': 'write-fails-then-disconnect'})
+    # ---- a burst: more packets readable back to back than one networking-loop batch takes (and, in a variant, a listener
+    # that queues outgoing packets so that writes use up part of the batch): every packet still passes all three stages
+    for variant in range(ctx.scale(6, 40)):
+        nburst = [49, 50, 51, 52, 101, 150][variant % 6]
+        queue_out = variant // 6 % 2 == 1 or variant % 4 == 3
+        ids = [rng.randrange(1, 2 ** 20) for _ in range(nburst)]
+        cfg = {'version': V, 'script': [('success',)] + [('keepalive', k) for k in ids]}
+        blog = []
+        orig_ka = C.PlayingReactor.react
+
+        def react_b(self, packet):
+            if isinstance(packet, cb.play.KeepAlivePacket):
+                blog.append(('R', packet.keep_alive_id))
+            return orig_ka(self, packet)
+        C.PlayingReactor.react = react_b
+        try:
+            with simnet.Net(lambda s: RefServer(s, cfg)) as net:
+                conn = C.Connection('h', 1, username='u', allowed_versions={V}, handle_exception=lambda e, i: blog.append(('EXC', repr(e))))
+                conn.register_packet_listener(lambda p: blog.append(('e', p.keep_alive_id)) if isinstance(p, cb.play.KeepAlivePacket) else None,
+                                              P.Packet, early=True)
+
+                def late(p):
+                    blog.append(('o', p.keep_alive_id))
+                    if queue_out:
+                        conn.write_packet(sb.play.ChatPacket(message='x'))
+                conn.register_packet_listener(late, cb.play.KeepAlivePacket)
+                conn.connect()
+                net.run_threads()
+        finally:
+            C.PlayingReactor.react = orig_ka
+        want = [(st, k) for k in ids for st in ('e', 'R', 'o')]
+        ctx.case(('burst', variant, nburst, queue_out))
+        ctx.count('burst.%d' % nburst)
+        if blog != want:
+            k = next((i for i, (a, b) in enumerate(zip(blog + [None] * len(want), want)) if a != b), len(want))
+            ctx.violation('%d keep-alives readable back to back%s: stage log differs from early, built-in, ordinary for every packet at '
+                          'packet #%d (%r instead of %r); %d of %d stage calls recorded'
+                          % (nburst, ', an ordinary listener queues a chat packet per keep-alive' if queue_out else '', k // 3 + 1,
+                             blog[k] if k < len(blog) else None, want[k] if k < len(want) else None, len(blog), len(want)),
+                          {'burst': nburst, 'queue_out': queue_out}, key={'kind': 'burst', 'n': nburst, 'queue_out': queue_out})
     # ---- an early listener that ignores Set Compression suppresses the built-in reaction: compression stays
     # off, and it is still off while the early listener runs
     for state in ('login',):
